@@ -30,6 +30,7 @@ Good == nbad' = nbad /\ UNCHANGED cl
 DocOf(info) == IF "d" \in DOMAIN info THEN info.d + 1 ELSE 0
 Bad(rule, info) ==
   /\ PrintT("JUDGE " \o ToJson([l |-> l, cl |-> cl, rule |-> rule, info |-> info,
+                                 also |-> IF "also" \in DOMAIN info THEN info.also ELSE <<>>,
                                  devs |-> SetSeq(Devs(cur, DocOf(info)))]))
   /\ nbad' = nbad + 1 /\ UNCHANGED cl
 
@@ -109,6 +110,10 @@ EngDrift(k, d, out) ==
   ELSE TRUE
 
 OutBool(o) == o = "t"
+(* the two clauses a verdict can violate: the language layer's admissible set, the bound denotation *)
+OracleBad(k, d, v) == d \in DOMAIN cur.docs /\ HasOracle(cur) /\ TextOk(SrcOf(k))
+                      /\ v \notin LangVerdicts(Ast(SrcOf(k)), cur.docs[d])
+DenBad(k, d, v) == d \in DOMAIN cur.docs /\ DK(k, d) \in DOMAIN den /\ den[DK(k, d)] # v
 TrMatch ==
   /\ IsEv("match") /\ Adv /\ EngDrift(e.obj, e.d + 1, e.out)
   /\ LET d == e.d + 1 v == OutBool(e.out) IN
@@ -116,9 +121,9 @@ TrMatch ==
         /\ v \in Allowed(e.obj, d)
      THEN Match(e.obj, d, v) /\ Good
      ELSE /\ Bad(IF e.out = "p" THEN "match_panic"
-                 ELSE IF DK(e.obj, d) \in DOMAIN den /\ den[DK(e.obj, d)] # v THEN "den"
-                 ELSE "oracle",
+                 ELSE IF OracleBad(e.obj, d, v) THEN "oracle" ELSE "den",
                  [obj |-> e.obj, d |-> e.d, out |-> e.out,
+                  also |-> IF e.out # "p" /\ OracleBad(e.obj, d, v) /\ DenBad(e.obj, d, v) THEN <<"den">> ELSE <<>>,
                   lang |-> IF d \in DOMAIN cur.docs /\ HasOracle(cur) THEN SetSeq(TriAllowed(d)) ELSE <<>>,
                   eng |-> EngOf(e.obj, d),
                   eng0 |-> Eng0Of(e.obj, d),
@@ -227,8 +232,10 @@ TrFinds ==
      THEN Match(e.obj, d, v) /\ Good
      ELSE /\ Bad(IF e.out = "p" THEN "match_panic"
                  ELSE IF BadCalls # {} THEN "find_key"
-                 ELSE IF DK(e.obj, d) \in DOMAIN den /\ den[DK(e.obj, d)] # v THEN "den" ELSE "oracle",
+                 ELSE IF OracleBad(e.obj, d, v) THEN "oracle" ELSE "den",
                  [obj |-> e.obj, d |-> e.d, out |-> e.out,
+                  also |-> (IF e.out # "p" /\ BadCalls # {} /\ OracleBad(e.obj, d, v) THEN <<"oracle">> ELSE <<>>)
+                           \o (IF e.out # "p" /\ DenBad(e.obj, d, v) /\ (BadCalls # {} \/ OracleBad(e.obj, d, v)) THEN <<"den">> ELSE <<>>),
                   bad |-> IF BadCalls = {} THEN <<>> ELSE e.calls[MinOf(BadCalls)]])
           /\ UNCHANGED rvars
 
